@@ -135,6 +135,32 @@ class _FakeTime:
             self.go.pop(t, None)
 
 
+class _GatedEvent(threading.Event):
+    """`threading.Event` as seen by caching.py: a watched thread that starts to wait reports it and either
+    really waits (the other thread will set the event) or returns at once, as if the timeout had elapsed."""
+    ctl = None
+
+    def wait(self, timeout=None):
+        ctl = _GatedEvent.ctl
+        me = threading.current_thread()
+        if ctl is not None and me in ctl['watched']:
+            with ctl['cv']:
+                ctl['waiting'].add(me)
+                ctl['cv'].notify_all()
+            if ctl['mode'] == 'timeout':
+                return False
+            return threading.Event.wait(self, 30)
+        return threading.Event.wait(self, timeout)
+
+
+class _ThreadingShim:
+    def __init__(self):
+        self.Event = _GatedEvent
+
+    def __getattr__(self, name):
+        return getattr(threading, name)
+
+
 class _Env:
     inst = None
 
@@ -148,7 +174,10 @@ class _Env:
         self.clock = _FakeTime()
         caching.time = self.clock
         cpreq.time = self.clock
+        caching.threading = _ThreadingShim()
         self.cur = {}
+        self.tls = threading.local()
+        self.gate = None          # {'thread':, 'cv':, 'inside':, 'open':} while a stampede scenario runs
         env = self
 
         class Root:
@@ -157,7 +186,14 @@ class _Env:
                 cur = env.cur
                 cur['gen'] += 1
                 g = cur['gen']
-                plan = cur['plan']
+                plan = env.tls.plan
+                gate = env.gate
+                if gate is not None and threading.current_thread() is gate['thread']:
+                    with gate['cv']:
+                        gate['inside'] = True
+                        gate['cv'].notify_all()
+                        if not gate['cv'].wait_for(lambda: gate['open'], timeout=30):
+                            raise RuntimeError('gate never opened')
                 resp = cherrypy.serving.response
                 h = resp.headers
                 if plan['vary']:
@@ -170,7 +206,7 @@ class _Env:
                 resp.status = 200 + g % 3
                 body = (b'g%d;' % g).ljust(plan['size'], b'.') if plan['size'] else b''
                 req = cherrypy.serving.request
-                cur['prod'] = {'gen': g, 'hdrs': {k: req.headers.get(k, '') for k in HDRS}, 'body': body,
+                env.tls.prod = {'gen': g, 'hdrs': {k: req.headers.get(k, '') for k in HDRS}, 'body': body,
                                'time': resp.time}
                 return body
 
@@ -178,8 +214,7 @@ class _Env:
 
         def end_hook():
             r = cherrypy.serving.request
-            env.cur['flags'] = (getattr(r, 'cached', None), getattr(r, 'cacheable', None))
-            env.cur['hooks'] = [(hk.callback, hk.priority) for hk in r.hooks.get('before_finalize', [])]
+            env.tls.flags = (getattr(r, 'cached', None), getattr(r, 'cacheable', None))
         self.end_hook = end_hook
 
     @classmethod
@@ -240,6 +275,31 @@ def req_headers(op):
     return h
 
 
+def do_request(env, app, op, prods):
+    """One request on the calling thread; returns its observation and records a handler production."""
+    _, method, path, qs, hdrs, pragma, cc, plan = op
+    env.tls.plan = plan
+    env.tls.prod = None
+    env.tls.flags = None
+    status, hs, body = env.call(app, method, path, qs, req_headers(op))
+    hd = {}
+    for k, v in hs:
+        hd.setdefault(k, v)
+    flags = env.tls.flags
+    o = {'method': method, 'url': [path, qs], 'status': status, 'headers': [list(x) for x in hs],
+         'body': body.decode('latin-1'), 'xgen': hd.get('X-Gen'), 'age': hd.get('Age'),
+         'flags': list(flags) if flags else None, 'time': env.clock.now, 'handler_gen': None}
+    p = env.tls.prod
+    if p is not None:
+        o['handler_gen'] = p['gen']
+        prods[p['gen']] = {'gen': p['gen'], 'url': [path, qs], 'hdrs': p['hdrs'], 'time': p['time'],
+                           'status': status, 'headers': o['headers'], 'body': p['body'].decode('latin-1'),
+                           'vary': list(plan['vary']),
+                           'req_no_store': bool(cc) and 'no-store' in cc,
+                           'resp_no_store': bool(plan['ns'])}
+    return o
+
+
 def run_history(case):
     """Execute one history on the real tool.  Returns {'obs': [per-op], 'prods': {gen: ...}, 'final': ...}."""
     env = _Env.get()
@@ -260,30 +320,11 @@ def run_history(case):
                     env.clock.one_pass(c.expiration_thread)
                 obs.append(None)
             else:
-                _, method, path, qs, hdrs, pragma, cc, plan = op
-                env.cur['plan'] = plan
-                env.cur['prod'] = None
-                env.cur['flags'] = None
-                status, hs, body = env.call(app, method, path, qs, req_headers(op))
+                o = do_request(env, app, op, prods)
                 c = getattr(cp, '_cache', None)
                 if c is not None:
                     # the thread's first pass (started inside this request) must be over before the clock moves
                     env.clock.wait_parked(c.expiration_thread)
-                hd = {}
-                for k, v in hs:
-                    hd.setdefault(k, v)
-                o = {'method': method, 'url': [path, qs], 'status': status, 'headers': [list(x) for x in hs],
-                     'body': body.decode('latin-1'), 'xgen': hd.get('X-Gen'), 'age': hd.get('Age'),
-                     'flags': list(env.cur['flags']) if env.cur['flags'] else None,
-                     'time': env.clock.now, 'handler_gen': None}
-                p = env.cur['prod']
-                if p is not None:
-                    o['handler_gen'] = p['gen']
-                    prods[p['gen']] = {'gen': p['gen'], 'url': [path, qs], 'hdrs': p['hdrs'], 'time': p['time'],
-                                       'status': status, 'headers': o['headers'], 'body': p['body'].decode('latin-1'),
-                                       'vary': list(plan['vary']),
-                                       'req_no_store': bool(cc) and 'no-store' in cc,
-                                       'resp_no_store': bool(plan['ns'])}
                 obs.append(o)
         c = getattr(cp, '_cache', None)
         final = None
@@ -293,6 +334,134 @@ def run_history(case):
         return {'obs': obs, 'prods': prods, 'final': final}
     finally:
         env.drop_cache()
+
+
+def run_stampede(scn):
+    """Two real request threads around one AntiStampedeCache slot, under gates.
+
+    warm-up W (creates the resource) ; T1 runs R1 and is held inside the page handler (its miss left an Event
+    in the slot) ; T2 runs R2: with R1's key it reaches Event.wait -- mode 'result': it really waits and T1's
+    put wakes it ; mode 'timeout': the wait returns at once as if the timeout had elapsed -- with another key
+    it does not wait ; T1 is released ; both are joined ; an optional follow-up request F runs afterwards.
+    Returns the same shape as run_history for the pseudo-history [W, R1, R2, F].
+    """
+    env = _Env.get()
+    cp = env.cherrypy
+    env.drop_cache()
+    env.clock.now = T0
+    env.cur = {'gen': 0, 'plan': None}
+    cfg = dict(scn['cfg'], timeout=30)
+    app = env.new_app(cfg)
+    prods = {}
+    obs = [None, None, None]
+    errors = []
+    try:
+        obs[0] = do_request(env, app, scn['warm'], prods)
+        env.clock.wait_parked(cp._cache.expiration_thread)
+
+        def worker(i, op):
+            try:
+                obs[i] = do_request(env, app, op, prods)
+            except BaseException as e:      # noqa
+                errors.append(repr(e))
+        t1 = threading.Thread(target=worker, args=(1, scn['first']), name='c15-T1')
+        t2 = threading.Thread(target=worker, args=(2, scn['second']), name='c15-T2')
+        cv = threading.Condition()
+        env.gate = {'thread': t1, 'cv': cv, 'inside': False, 'open': False}
+        ctl = {'watched': {t2}, 'waiting': set(), 'mode': scn['mode'], 'cv': threading.Condition()}
+        _GatedEvent.ctl = ctl
+        t1.start()
+        with cv:
+            if not cv.wait_for(lambda: env.gate['inside'] or not t1.is_alive(), timeout=20):
+                raise common.HarnessError('stampede: T1 never reached the handler')
+        t2.start()
+        with ctl['cv']:
+            ctl['cv'].wait_for(lambda: t2 in ctl['waiting'] or not t2.is_alive(), timeout=0.05)
+        # T2 is either parked in Event.wait, or runs to completion on its own: poll its liveness deterministically
+        for _ in range(400):
+            with ctl['cv']:
+                if t2 in ctl['waiting'] or not t2.is_alive():
+                    break
+                ctl['cv'].wait(0.05)
+        else:
+            raise common.HarnessError('stampede: T2 neither waiting nor finished')
+        waited = t2 in ctl['waiting']
+        if scn['mode'] == 'timeout' and waited:
+            t2.join(20)                      # T2 goes on alone (handler, put) while T1 is still held
+        with cv:
+            env.gate['open'] = True
+            cv.notify_all()
+        t1.join(20)
+        t2.join(20)
+        if t1.is_alive() or t2.is_alive():
+            raise common.HarnessError('stampede: request threads did not finish')
+        if errors:
+            raise common.HarnessError('stampede: request thread raised %s' % errors[:2])
+        env.gate = None
+        _GatedEvent.ctl = None
+        ops = [scn['warm'], scn['first'], scn['second']]
+        if scn.get('follow'):
+            obs.append(do_request(env, app, scn['follow'], prods))
+            ops.append(scn['follow'])
+        return {'obs': obs, 'prods': prods, 'final': None, 'ops': ops, 'waited': waited}
+    finally:
+        env.gate = None
+        _GatedEvent.ctl = None
+        env.drop_cache()
+
+
+def gen_stampede(rng):
+    cfg = {'delay': rng.choice([2, 10]), 'maxobjects': 1000, 'maxobj_size': 100000, 'maxsize': 10000000}
+    vary = rng.sample(HDRS, rng.choice([1, 2, 2, 3]))
+    path, qs = rng.choice(PATHS), rng.choice(QUERIES)
+
+    def hd():
+        return {h: rng.choice(['p', 'q']) for h in HDRS}
+
+    def plan():
+        return {'vary': list(vary), 'size': rng.choice([12, 20]), 'ns': False, 'pnc': False}
+    h1 = hd()
+    r = rng.random()
+    if r < 0.45:
+        h2 = dict(h1)                               # same variant: T2 meets T1's Event
+    elif r < 0.75 and len(vary) >= 2:
+        h2 = dict(h1)                               # the values of two selecting headers swapped
+        a, b = rng.sample(vary, 2)
+        h2[a], h2[b] = h1[b], h1[a]
+    else:
+        h2 = hd()
+    hw = hd()
+    for _ in range(5):
+        if any(hw[v] != h1[v] for v in vary):
+            break
+        hw = hd()
+
+    def req(h, cc=None):
+        return ['R', 'GET', path, qs, h, None, cc, plan()]
+    scn = {'cfg': cfg, 'warm': req(hw), 'first': req(h1), 'second': req(h2),
+           'mode': rng.choice(['result', 'result', 'timeout']),
+           'follow': req(rng.choice([h1, h2, hd()])) if rng.random() < 0.7 else None}
+    return scn
+
+
+def check_stampede(ctx, scns):
+    for scn in scns:
+        res = run_stampede(scn)
+        case = {'cfg': scn['cfg'], 'ops': res['ops'], 'stampede': scn}
+        toks, _ = canon_real(dict(res, final=None))
+        second = toks[2]
+        ctx.case(case, nontrivial=res['waited'], key='stampede ' + json.dumps(scn, sort_keys=True))
+        ctx.count('stampede:%s:%s' % (scn['mode'] if res['waited'] else 'no-wait',
+                                      'hit' if second.startswith('H') else 'handler'))
+        for what, sig in oracle(case, res):
+            ctx.oracle_fail(case, 'anti-stampede scenario: ' + what, 'stampede:' + sig)
+        # the waiting thread is given exactly the response the other thread stored for this key
+        if res['waited'] and scn['mode'] == 'result':
+            o1, o2 = res['obs'][1], res['obs'][2]
+            if o2['handler_gen'] is None and o2['status'] != 400 and str(o1['handler_gen']) != o2['xgen']:
+                ctx.oracle_fail(case, 'anti-stampede scenario: the waiting request was served generation %s, the '
+                                'request it waited for produced %s' % (o2['xgen'], o1['handler_gen']),
+                                'stampede:foreign_result')
 
 
 # ----------------------------------------------------------------------------------------------
@@ -739,7 +908,9 @@ def run(ctx):
         c = witness_case(e)
         if c is not None:
             check_cases(ctx, [c])
-    check_cases(ctx, corpus_cases())
+    check_cases(ctx, [c for c in corpus_cases() if 'stampede' not in c])
+    # anti-stampede placeholder under two real, gated request threads (oracle only; the model is sequential)
+    check_stampede(ctx, [gen_stampede(ctx.rng) for _ in range(ctx.budget(60, 1500))])
     n = ctx.budget(1500, 150000)
     procs = min(ctx.budget(8, 16), os.cpu_count() or 4)
     done = 0
@@ -767,6 +938,12 @@ def search(ctx, around=None):
 
 
 def replay(ctx, case):
+    if 'stampede' in case:
+        res = run_stampede(case['stampede'])
+        print('scenario:', json.dumps(case['stampede']))
+        print('impl    :', ' '.join(canon_real(dict(res, final=None))[0]), 'waited=%s' % res['waited'])
+        check_stampede(ctx, [case['stampede']])
+        return
     res = run_history(case)
     toks, tail = canon_real(res)
     print('history:', model_line(case))
